@@ -66,14 +66,8 @@ func (p *Parser) Parse(source string) (Node, error) {
 	// Use zero allocation tokenizer for optimal performance
 	tokenizer := GetTokenizer(p.source, 0)
 
-	// Use optimized version for larger templates
-	if len(p.source) > 4096 {
-		// Use the optimized tag detection for large templates
-		p.tokens, err = tokenizer.TokenizeOptimized()
-	} else {
-		// Use regular tokenization for smaller templates
-		p.tokens, err = tokenizer.TokenizeHtmlPreserving()
-	}
+	// Every template is read by the same tokenizer, whatever its length
+	p.tokens, err = tokenizer.TokenizeHtmlPreserving()
 
 	// Apply whitespace control to handle whitespace trimming directives
 	if err == nil {
